@@ -295,10 +295,18 @@ def _twin_history(ctx, spec, meta, channel, plain, it, ops, rng, n_ops):
                 break
             r = rng.random()
             cands = sorted(a for a in plain.cell_map if a in it.cell_map and ':' not in a and
-                           a not in meta['formulas'] and not a.startswith(wbgen.SD + '!'))
+                           a not in meta['formulas'])
             if r < 0.4 and cands:
                 a = rng.choice(cands)
-                op = ['set', a, hist.propose_write(rng, cur(a))]
+                v = hist.propose_write(rng, cur(a))
+                if a.startswith(wbgen.SD + '!'):
+                    # keep the used area of the sheet under unbounded references as it is (see C01)
+                    sd = dict(spec['sheets'])[wbgen.SD]
+                    c_, r_ = wb.split_coord(a.rsplit('!', 1)[1])
+                    if v is None or c_ > max(wb.split_coord(c)[0] for c in sd) or \
+                            r_ > max(wb.split_coord(c)[1] for c in sd):
+                        v = 7
+                op = ['set', a, v]
             elif r < 0.5:
                 op = ['eval', [rng.choice(addresses) for _ in range(2)]]
             else:
